@@ -16,7 +16,7 @@ TRUSTED_BASE = [
 ASSUMPTIONS = ["the theorem speaks about runs the sender survives; forged acknowledgement ids >= 2^20 (which make acknowledge() panic) are C03's subject"]
 RULE = ("two real HalfConnections joined by a simulated network (loss/dup/reorder/delay/flips), random send histories over 4 modes and sizes around the "
         "1448-byte fragment boundaries, windows 4..4096, small allocation limits, bursts beyond window and credit, TimeSensitive packets dropped by flush id; "
-        "a probe after every 1-5 ticks; then a loss-free drain to quiescence. Non-trivial: at least one frame emitted and one packet delivered; distinct by "
+        "a probe after every 1-5 ticks; then a loss-free drain to quiescence. Oracle clause released_on_report: after an endpoint has handled an acknowledgement frame of its peer reporting packet window base P, its send window base is at or past P. Non-trivial: at least one frame emitted and one packet delivered; distinct by "
         "(frame window, packet window, frame kinds, fates seen, volume buckets, wrap-around flags).")
 
 def streams(rng, tier, ctx):
@@ -83,9 +83,28 @@ def oracle(stream, cid, ops, outs):
                 fails.append({"oracle": "alloc_exact", "detail": "%s t=%d: alloc=%d but window alloc sum=%d" % (ep, p["_time"], alloc, ab),
                               "signature": {"oracle": "alloc_exact"}})
                 break
-    for ep, gs in gets.items():
-        for g in gs:
-            pass
+    # "acknowledged" is what the receiver reports: once an endpoint has handled an acknowledgement frame of its (honest) peer
+    # carrying the packet window base P, its own send window base is at or past P - the packets behind P are released and their
+    # bytes leave send_buffer_size() - whether or not the same frame also moved the frame window (round-7 change C20-g)
+    import gen_hc
+    emitted = {"A": [], "B": []}; reported = {"A": [], "B": []}
+    for op, o in zip(ops, outs):
+        w = op.split(" ")
+        if len(w) >= 2 and w[1] == "flush" and o and o[0].isdigit():
+            emitted[w[0]].extend(gen_hc.parse_frames(o))
+        elif w[0] == "fwd" and len(w) == 4 and o == "ok":
+            src, idx, dst = w[1], int(w[2]), w[3]
+            f = emitted[src][idx] if idx < len(emitted[src]) else None
+            if f and f["kind"] == "A":
+                reported[dst].append(f["pbase"])
+        elif len(w) >= 2 and w[1] == "probe" and o.startswith("fa="):
+            pr = gen_hc.parse_probe(o); base = int(pr["ps"][0])
+            bad = [P for P in reported[w[0]] if ((base - P) % (1 << 20)) >= (1 << 19)]
+            reported[w[0]] = []
+            if bad:
+                fails.append({"oracle": "released_on_report", "detail": "%s: handled an acknowledgement frame reporting packet window base %d, but its send window base is still %d (next %s): send_buffer_size keeps counting %s bytes in the window" %
+                              (w[0], bad[0], base, pr["ps"][1], pr["pb"][1]), "signature": {"oracle": "released_on_report"}})
+                break
     # "zero once everything has been acknowledged": whenever the send queue is empty and the send window is empty (every packet
     # that was sent has been acknowledged or passed by the receiver's window) the counter is 0; and the public
     # send_buffer_size() is the counter the probe reports
